@@ -146,6 +146,7 @@ fn classify_inputs(w: &[Input], ns: u32, base: &str) -> String {
     if unfaithful_print(w, ns) { return "formula_print_not_faithful".into(); }
     if spill_ref_before_anchor(w, &a) { return "spill_ref_before_anchor".into(); }
     if spill_depends_on_later_spill(w, &a) { return "spill_depends_on_later_spill".into(); }
+    if direct_read_of_later_spill(w, &a) { return "direct_read_of_later_spill".into(); }
     if a.has_cycle() { return if a.absorbed_cycle() { "absorbed_cycle".into() } else { "cycle_order".into() }; }
     if raw_vs_stored_nonfinite(w, &a) { return "raw_vs_stored_nonfinite".into(); }
     if raw_vs_stored_empty(w, &a) { return "raw_vs_stored_empty".into(); }
@@ -337,6 +338,12 @@ fn main() {
         ("spill ref before its anchor, scalar reader", inp(&[("A1", "=SUM(B1#)"), ("B1", "=SEQUENCE(3)")])),
         ("anchor reads, through a scalar formula, a later anchor's spill", inp(&[("F1", "=C1:C2"), ("C2", "=IFERROR(E3,0)"), ("D2", "=SEQUENCE(2,2)")])),
         ("same, dependent anchor placed after", inp(&[("F4", "=C1:C2"), ("C2", "=IFERROR(E3,0)"), ("D2", "=SEQUENCE(2,2)")])),
+        ("direct read of the LAST ROW of a later anchor's spill", inp(&[("A1", "=B12:C12*1"), ("B10", "=G1:G3*1"), ("G1", "1"), ("G2", "2"), ("G3", "3")])),
+        ("direct read of the FIRST ROW of a later anchor's spill", inp(&[("A1", "=B10:C10*1"), ("B10", "=G1:G3*1"), ("G1", "1"), ("G2", "2"), ("G3", "3")])),
+        ("direct read of the LAST COLUMN of a later anchor's spill", inp(&[("A1", "=D10:D11*1"), ("B10", "=SEQUENCE(2,3)")])),
+        ("direct read of a corner cell of a later anchor's spill", inp(&[("A1", "=D11:D11*1"), ("B10", "=SEQUENCE(2,3)"), ("A3", "=SUM(A1:A2)")])),
+        ("direct read of a later anchor's spill on the other sheet", inp(&[("A1", "=Sheet2!B12:C12*1"), ("2!B10", "=G1:G3*1"), ("2!G1", "1"), ("2!G2", "2"), ("2!G3", "3")])),
+        ("direct read of an EARLIER anchor's last row", inp(&[("F14", "=B12:C12*1"), ("B10", "=G1:G3*1"), ("G1", "1"), ("G2", "2"), ("G3", "3")])),
         ("cross sheet", inp(&[("2!A1", "=Sheet1!A1+1"), ("A1", "=SUM(Sheet2!B1:B2)"), ("2!B1", "4"), ("2!B2", "=B1*2")])),
     ];
     let mut witnesses: Vec<Value> = vec![];
@@ -381,7 +388,7 @@ fn main() {
     let total = if thorough { 3000 } else { 150 };
     for i in 0..total {
         // chains of depth 200 are expensive under evaluate-after-every-edit: 1 in 25
-        let kind = if i % 25 == 7 { 1 } else { [0, 2, 3, 4, 5, 6, 6, 0, 3, 5, 2, 6][i % 12] };
+        let kind = if i % 25 == 7 { 1 } else { [0, 2, 3, 4, 5, 6, 7, 0, 3, 7, 2, 6, 7][i % 13] };
         let w = gen::gen_workbook(&mut rng, kind);
         if samples.len() < 10 && i % 13 == 0 {
             samples.push(format!("{}: {}", KINDS[kind], w.iter().take(8).map(|x| format!("{}<-{}", cell_name(x.0, x.1, x.2), x.3)).collect::<Vec<_>>().join("  ")));
